@@ -3379,6 +3379,38 @@ def custom_node_items(rng, n) -> List[Item]:
     return items
 
 
+def raising_member_items(rng, n) -> List[Item]:
+    """a coalesce / a switch default standing behind a member whose USER code raises on the value it is given (a case
+    predicate, a bind continuation, an applied function): the member is present and fails for a reason of its own, so the
+    failure surfaces — an EvaluationError whose chain ends in that exception — and is not taken for "this member lacks an
+    option" (which is what lets a coalesce fall through); with the option absent the fall-through applies"""
+    items = []
+    for i in range(n):
+        P = Prog()
+        cls = ["ValueError", "CustomError", "KeyError", "LookupError", "RuntimeError", "TypeError"][i % 6]
+        name = f"thr{i}"
+        # (a member that merely APPLIES a raising function validates and then fails in evaluate — an EvaluationError, which
+        # a coalesce takes as "try the next member": that is its documented behaviour, not part of this family)
+        kind = (i // 6) % 2
+        if kind == 0:
+            P.const_fn(name, True, **{"raise": {"cls": cls, "on": ["bad"]}})
+            member = P.case(P.option("LEVEL"), [(P.fnvalue(name), P.value("high"))], P.value("low"))
+        else:
+            member = P.bind(P.option("LEVEL"), [("ok", P.value("fine"))], None, cls=cls)
+        c = P.coalesce([member, P.value("unknown")])
+        root = [lambda: c, lambda: P.dataset([("v", c)]), lambda: P.cached(c)][(i // 12) % 3]()
+        recs, exp = [], []
+        for o, fails in [({"LEVEL": "ok"}, False), ({"LEVEL": "bad"}, True), ({}, False), ({"LEVEL": "bad", "Z": 1}, True), ({"LEVEL": "ok"}, False)]:
+            P.evaluate(root, o)
+            P.evaluate(root, o, cache_off=True)
+            recs.append((len(P.ops) - 2, len(P.ops) - 1))
+            if fails:
+                exp.append(len(P.ops) - 2)
+        items.append((P.to_json(), {"fail": recs, "root": root, "root_cid": None, "raising": {name: cls},
+                                    "expect_cause": {"ops": exp, "cls": cls, "position": "coalesce member"}, "classify_off": True}))
+    return items
+
+
 def c12_programs(rng, tier) -> List[Item]:
     items = corpus_items("C12")
     items += c12_domain_items(rng, sizes(tier, 40, 300))
@@ -3389,6 +3421,7 @@ def c12_programs(rng, tier) -> List[Item]:
     import pylib as _pylib
     items += exception_class_items(rng, len(_pylib.EXC) * len(EXC_POSITIONS))     # the full cross product, in both tiers
     items += custom_node_items(rng, sizes(tier, 60, 240))
+    items += raising_member_items(rng, sizes(tier, 36, 72))
     return items
 
 
@@ -3521,7 +3554,7 @@ def c16_programs(rng, tier) -> List[Item]:
     cfgx = Cfg(raising=False, all_options=False, templates=False, max_depth=99)
     g = gen_items(rng, cfgx, sizes(tier, 15, 150), hist_switches, n_dicts=2)
     return (items + g + derived_cache_items(rng, sizes(tier, 30, 300)) + log_level_items(rng, sizes(tier, 20, 120))
-            + spelled_switch_items(rng, sizes(tier, 24, 120)))
+            + spelled_switch_items(rng, sizes(tier, 24, 120)) + recompute_items(rng, sizes(tier, 12, 36)))
 
 
 SWITCH_SPELLINGS = [(True, True), (False, False), (1, True), (0, False), ("", False), ("yes", True), (None, False),
@@ -3578,6 +3611,36 @@ def spelled_switch_items(rng, n) -> List[Item]:
             if not v1:
                 offs.append({"base": base, "op": len(P.ops) - 1, "spelling": [v1, v2], "switch": "CACHE.DISABLED + CACHE.DISABLE"})
         items.append((P.to_json(), {"sw": recs, "bodies": _dataset_bodies(P), "sw_off": offs}))
+    return items
+
+
+def recompute_items(rng, n) -> List[Item]:
+    """with caching disabled EVERY evaluation recomputes — also the second use of ONE dataset object bound to two
+    parameters of a consumer, or reached along two routes: the body, the effects and the INFO log request occur once per
+    use; with caching on, once per evaluation"""
+    items = []
+    for i in range(n):
+        P = Prog()
+        src = P.dataset([("a", P.option("A"))], effects=[P.fnvalue(P.free("eff1"))])
+        body = P.node(P.node(P.ovs[-1]["dflt"])["f"])["v"]["f"]
+        shape = i % 3
+        if shape == 0:
+            root = P.dataset([("left", src), ("right", src)])
+            uses = 2
+        elif shape == 1:
+            root = P.funapp(P.fnvalue(P.free(f"pair{i}")), args=[src, src, src])
+            uses = 3
+        else:
+            root = P.dataset([("l", P.dataset([("s", src)])), ("r", src)])
+            uses = 2
+        recs = []
+        how = [("DISABLED", {"LABREA": {"CACHE": {"DISABLED": True}}}, {}), ("DISABLE", {"LABREA": {"CACHE": {"DISABLE": 1}}}, {}),
+               ("ctx", {}, {"cache_off": True}), ("on", {}, {})]
+        for j, (name, lab, kw) in enumerate(how):
+            o = dict({"A": j}, **lab)
+            P.evaluate(root, sort_json(o), **kw)
+            recs.append({"op": len(P.ops) - 1, "cache": name, "body": body, "effect": "eff1", "uses": uses})
+        items.append((P.to_json(), {"sw": [], "bodies": _dataset_bodies(P), "recompute": recs}))
     return items
 
 
@@ -3641,6 +3704,18 @@ def c16_oracle(prog, meta, impl, model):
         if rec["mode"] == "on" and sorted(r[2] for r in eff_records) != rec["levels"]:
             out.append(("a dataset's log effects did not each emit one record for the body execution", rec["op"],
                         {"expected_levels": rec["levels"], "records": eff_records}))
+    for rec in meta.get("recompute", []):
+        a = impl[rec["op"]] if rec["op"] < len(impl) else None
+        if not is_ok(a):
+            continue
+        want = rec["uses"] if rec["cache"] != "on" else 1
+        nb = sum(1 for c in a.get("calls", []) if c[0] == rec["body"])
+        ne = sum(1 for c in a.get("calls", []) if c[0] == rec["effect"])
+        nl = sum(1 for r in a.get("log", []) if isinstance(r[0], str) and "d1" in r[0])
+        if (nb, ne) != (want, want) or (rec["cache"] != "on" and nl != want):
+            out.append(("with caching " + ("disabled every use recomputes" if rec["cache"] != "on" else "on a shared dataset is computed once")
+                        + ": body / effect / INFO record counts differ", rec["op"],
+                        {"how": rec["cache"], "expected_each": want, "body_runs": nb, "effect_runs": ne, "info_records": nl}))
     for rec in meta.get("nocache_runs", []):
         a = impl[rec["op"]] if rec["op"] < len(impl) else None
         if is_ok(a):
